@@ -38,8 +38,18 @@ class Unsupported(Exception):
 
 
 # ----------------------------------------------------------------------------------------------- clang
+_AST_CACHE = {}
+
+
 def clang_ast(cfile, fn, extra_src=None):
-    """JSON AST of every top-level declaration named `fn` in translation unit `cfile`."""
+    """JSON AST of every top-level declaration named `fn` in translation unit `cfile` (memoised per process)."""
+    key = (cfile, fn)
+    if key not in _AST_CACHE:
+        _AST_CACHE[key] = _clang_ast(cfile, fn)
+    return _AST_CACHE[key]
+
+
+def _clang_ast(cfile, fn, extra_src=None):
     cmd = ["clang-14", "-fsyntax-only", "-std=gnu11", "-w", "-DNDEBUG", "-I", SRC, "-Xclang", "-ast-dump=json",
            "-Xclang", f"-ast-dump-filter={fn}", cfile]
     r = subprocess.run(cmd, capture_output=True, text=True)
@@ -828,10 +838,13 @@ def has_kind(n, kind):
     return False
 
 
+_ENUM_CACHE = {}      # enumerator / constant values are facts about the headers: shared by all modules of one run
+
+
 class Translator:
     def __init__(self):
         self.done = {}
-        self.enums = {}
+        self.enums = _ENUM_CACHE
 
     def enum_value(self, cfile, name):
         if name not in self.enums:
